@@ -49,7 +49,11 @@ def d2_requote_surrogate_lookahead(prop, mech, case, info, variant):
     t = "".join(m if _surrogate(x) else x for x in s)
     try:
         predicted = qp._Quoter(**case["kwargs"])(t).replace(esc, "")
+        # ... and the pure-Python side of the mechanism: its result is that of the input with the lone surrogates taken out
+        py_pred = qp._Quoter(**case["kwargs"])("".join(x for x in s if not _surrogate(x)))
     except Exception:
+        return False
+    if info.get("_py") != py_pred:
         return False
     return predicted == c_out
 
